@@ -601,6 +601,10 @@ def exec_case(pp, sh, case, obj, recs=None):
             res["error"] = r[1:]
         plt.close(fig)
         ex = call(lambda: (obj.mean_curve_by_azimuth(distribution=d), obj.mean_curve_peak_by_azimuth(distribution=d) if pk else None))
+        if ex[0] == "ok" and np.any(np.isnan(ex[1][0])):
+            # an azimuth without an accepted window has a NaN mean curve: the colour-bar ticks (np.arange(0, nan, 5)) raise
+            res["expect"] = ("err", "nan-mesh")
+            ex = ("err", "nan-mesh")
         if ex[0] == "ok":
             mesh = np.vstack((ex[1][0], ex[1][0][0]))
             arts = [("peakMeanByAzimuth", optlist(ex[1][1][0]), optlist(obj.azimuths))] if pk else []
@@ -637,9 +641,10 @@ def exec_case(pp, sh, case, obj, recs=None):
                 fp, ap = ex[1][1]
                 sc = [[optlist(np.log10(np.array([*fp, fp[0]]))), optlist([*obj.azimuths, 180.]), optlist(np.array([*ap, ap[0]]) * 1.05)]]
             res["expect"] = ("ok", [optlist(row) for row in mesh], sc)
+            res["expect_peaks"] = [optlist([*ex[1][1][0], ex[1][1][0][0]]), optlist([*ex[1][1][1], ex[1][1][1][0]])] if pk else [[], []]
         else:
             res["expect"] = ("err", ex[1])
-        lines.append(f"c20.contour2d {otok[2:]} {d} {1 if pk else 0}")
+        lines.append(f"c20.contour3d {otok[2:]} {d} {1 if pk else 0}")
     elif fn == "plot_azimuthal_summary":
         pk = case["peaks"]
         r = call(lambda: pp.plot_azimuthal_summary(obj, plot_mean_curve_peak_by_azimuth=pk, **o))
@@ -661,8 +666,8 @@ def exec_case(pp, sh, case, obj, recs=None):
         if ex[0] == "ok":
             e3 = call(lambda: (obj.mean_curve_by_azimuth(distribution=o["distribution_mc"]),
                                obj.mean_curve_peak_by_azimuth(distribution=o["distribution_mc"]) if pk else None))
-            if e3[0] != "ok":
-                ex = ("err", e3[1])
+            if e3[0] != "ok" or np.any(np.isnan(e3[1][0])):
+                ex = ("err", e3[1] if e3[0] != "ok" else "nan-mesh")
             else:
                 res["expect2d"] = [("peakMeanByAzimuth", optlist(e3[1][1][0]), optlist(obj.azimuths))] if pk else []
         res["expect"] = ex
@@ -816,12 +821,19 @@ def judge(ctx, case, res, outs, scale):
         if status_vs(fn, res["status"], "ok" if mstat == "ok" else "err", "model contour2dLines", C_STATS):
             azs = t.vec()
             rows = parse_rows(t)
-            arts = parse_artists(t)
+            arts = parse_artists(t) if fn.endswith("2d") else [(t.flt(), t.flt()) for _ in range(t.nat())]
             if not (vclose(azs, res["mesh_azi"], 180.0) and len(rows) == len(res["mesh_amp"])
                     and all(vclose(a, b, scale, 1e-8) for a, b in zip(res["mesh_amp"], rows))):
                 fails.append((C_STATS, dict(what=fn + ": mesh vs model azMesh", mesh=res["mesh_amp"], model=rows)))
             if fn.endswith("2d"):
                 both(C_STATS, fn, res["lines"], arts, False, "model contour2dLines")
+            else:
+                ep = res["expect_peaks"]
+                if not (vclose([a[0] for a in arts], ep[0], scale, 1e-8) and (vclose([a[1] for a in arts], ep[1], scale, 1e-8))):
+                    if vclose([a[1] for a in arts], ep[1], scale, 1e-7):
+                        ctx.near_tie_skipped += 1
+                    else:
+                        fails.append((C_STATS, dict(what=fn + ": per-azimuth peaks vs model contour3dData", model=arts, accessors=ep)))
     elif fn == "plot_azimuthal_summary":
         mo = parse_elines(outs[0])
         if status_vs(fn, res["status"], res["expect"][0], "object accessors"):
@@ -943,9 +955,17 @@ def opts_key(o):
     return o["distribution_mc"][0] + o["distribution_fn"][0] + "".join("1" if o[k] else "0" for k in OPT_KEYS)
 
 
+def ensure_driver():
+    """the shared lean phase builds `hvsrdrv` only; the C20 commands live in their own executable"""
+    rc, log = lake(["build", EXE])
+    if rc != 0:
+        raise InfraError("driver build failed (drv_c20):\n" + log[-3000:])
+
+
 def run(ctx):
     import hvsrpy
     import hvsrpy.postprocessing as pp
+    ensure_driver()
     ctx.rule = ("objects = HvsrTraditional (3-12 windows) / HvsrAzimuthal (1-5 azimuths x 2-8 windows) after random histories of 0-4 public "
                 "operations (peak-range updates, FDWRA, time-domain masks, manual rejection), 30 % with the public mask attributes "
                 "assigned directly (masks independent), and HvsrDiffuseField curves; 8-14 frequencies; recordings of 4-9 samples; every public "
@@ -969,7 +989,7 @@ def run(ctx):
     def dd():
         return dict(distribution_mc=str(rng.choice(DISTS)), distribution_fn=str(rng.choice(DISTS)))
 
-    n_t, n_a, n_d = ctx.budget((46, 22, 8), (400, 180, 40))
+    n_t, n_a, n_d = ctx.budget((70, 32, 10), (400, 180, 40))
     per_t, per_a = ctx.budget((9, 6), (12, 8))
     pending = []     # (case, res, first model line, number of model lines, scale, nontrivial)
     req = []
@@ -1056,6 +1076,7 @@ def run(ctx):
 def replay(case):
     import hvsrpy
     import hvsrpy.postprocessing as pp
+    ensure_driver()
     sh = Shared()
     try:
         obj = rebuild(case["obj"]) if case.get("obj") else None
